@@ -43,11 +43,20 @@ def run(repo: Repo, rep, tier: str):
             rep.ok("C13.diff", f"rv/modules/base/{modname.lower()}.py:Base{modname}", "all fields equal")
     registry_rules(repo, rep, spec, "C13")
     meta_rules(repo, rep, "C13")
-    for p in specdiff.check_enumname(repo):
+    enum_problems = specdiff.check_enumname(repo)
+    enum_clean = not enum_problems
+    if any(p.startswith("?") for p in enum_problems):
+        for p in enum_problems:
+            if p.startswith("?"):
+                rep.inconclusive("C13.enumname", "src/python/genrv/tools/generate.py:enumname", p[1:],
+                                 "the generator's identifier mangling is not readable as a table of replacements",
+                                 "src/python/genrv/tools/generate.py")
+        enum_problems = []
+    for p in enum_problems:
         rep.violation("C13.enumname", "src/python/genrv/tools/generate.py:enumname", p,
                       "the identifier mangling used by the generator differs from the one the "
                       "checked-in classes were compared with", "src/python/genrv/tools/generate.py")
-    else:
+    if enum_clean:
         rep.ok("C13.enumname", "src/python/genrv/tools/generate.py:enumname", "replacement table equal")
     template_rules(repo, rep, "C13")
 
